@@ -22,8 +22,12 @@ def main() -> int:
     ap.add_argument("--replay", default=None)
     args = ap.parse_args()
 
-    if os.environ.get("PYTHONHASHSEED") != "0" and not os.environ.get("VERIF_KEEP_HASHSEED"):
+    repo = os.environ.get("VERIF_REPO", "/repo")
+    need_path = repo != "/repo" and repo not in os.environ.get("PYTHONPATH", "").split(os.pathsep)
+    if (os.environ.get("PYTHONHASHSEED") != "0" and not os.environ.get("VERIF_KEEP_HASHSEED")) or need_path:
         env = dict(os.environ, PYTHONHASHSEED="0")
+        if need_path:  # a scratch copy of the tree under test precedes the editable install
+            env["PYTHONPATH"] = repo + (os.pathsep + env["PYTHONPATH"] if env.get("PYTHONPATH") else "")
         os.execve(sys.executable, [sys.executable, "-m", "vp.check"] + sys.argv[1:], env)
 
     os.environ.setdefault("PYTHON_MYPY_VERIF", "1")
